@@ -190,6 +190,16 @@ func (c *caseT) feedsEndBlock() {
 			}
 		}
 		if !skipList {
+			if r.Chance(1, 3) {
+				// the stored list is in the order of an EARLIER feed list (the feeds were re-ranked since the submission), and may
+				// still hold a signal that is no longer current: prices belong to their signal, not to a position
+				for a, b := 0, len(vps)-1; a < b; a, b = a+1, b-1 {
+					vps[a], vps[b] = vps[b], vps[a]
+				}
+				if r.Chance(1, 2) {
+					vps = append([]feedstypes.ValidatorPrice{{SignalPriceStatus: feedstypes.SIGNAL_PRICE_STATUS_AVAILABLE, SignalID: "CS:GONE", Price: 7, Timestamp: nowS, BlockHeight: height}}, vps...)
+				}
+			}
 			fx.Must(fk.SetValidatorPriceList(c.ctx, v.ValAddress, vps))
 		} else {
 			c.ctx.KVStore(c.app.GetKey(feedstypes.StoreKey)).Delete(feedstypes.ValidatorPriceListStoreKey(v.ValAddress))
